@@ -817,3 +817,69 @@ Theorem c09_eager_file_is_loop_prefix : forall prs_float valid h text,
   eager_records prs_float valid h text = until_err (eager_call_list prs_float valid h text).
 Proof. exact eager_file_until_err. Qed.
 Print Assumptions c09_eager_file_is_loop_prefix.
+
+(* ---------------------------------------------------------------------------------------- *)
+(* wave 10c: THE LAZY FILE LOOP WITH EVERY CALL KEPT (NV.Vcf.LazyLoop.lazy_call_list: read_record
+   into ONE lazy Record until Ok(0), going on after Err; rdx_record = LazyRec.rd_record that also
+   keeps where a failed call leaves the reader) *)
+From NV Require Vcf.LazyLoop Vcf.LazyLoopProofs.
+
+(* the new reader program is the one of the earlier lazy theorems, plus the position after Err *)
+Theorem c09_lazy_loop_reader_is_rd_record : forall valid src,
+  NV.Vcf.LazyLoop.forget_x (NV.Vcf.LazyLoop.rdx_record valid src) = NV.Vcf.LazyRec.rd_record valid src.
+Proof. exact NV.Vcf.LazyLoopProofs.forget_x_record. Qed.
+Print Assumptions c09_lazy_loop_reader_is_rd_record.
+
+(* the lazy and the eager loop frame a text of LF-terminated lines (whose byte strings pass the
+   UTF-8 check) into the SAME lines: one call per line t LF; the lazy call consumes exactly that
+   line -- also when it fails ("unexpected EOL" is returned behind the LF) -- and yields
+   Line.read_lazy of strip_cr t, never a panic; the eager call yields Line.read_eager of the same
+   strip_cr t (on written lines the two agree by c09_record_text_roundtrip / c09_file_roundtrip) *)
+Theorem c09_lazy_eager_loops_same_lines_partial : forall prs_float valid h (ts : list (list N)),
+  Forall (fun t => ~ In 10%N t) ts ->
+  (forall s, (forall b, In b s -> In b (with_lf ts)) -> valid s = true) ->
+  Forall2 (NV.Vcf.LazyLoopProofs.call_on_line prs_float h)
+          (NV.Vcf.LazyLoop.lazy_call_list prs_float valid h (with_lf ts)) ts /\
+  eager_call_list prs_float valid h (with_lf ts) = map (fun t => read_eager prs_float h (strip_cr t)) ts.
+Proof.
+  intros prs_float valid h ts Hts Hval. split.
+  - apply NV.Vcf.LazyLoopProofs.lazy_call_list_with_lf; assumption.
+  - pose proof (eager_calls_framed prs_float valid h ts [] Hts (fun x => x)) as E.
+    rewrite !app_nil_r in E. rewrite E. apply map_ext_in. intros t Ht.
+    rewrite Hval; [reflexivity|]. intros b Hb. unfold with_lf.
+    apply in_concat. exists (t ++ [10%N]). split; [|exact Hb].
+    apply in_map_iff. exists t. split; [reflexivity|exact Ht].
+Qed.
+Print Assumptions c09_lazy_eager_loops_same_lines_partial.
+
+(* the same about the readers of the crate (valid = core::str::from_utf8) for ASCII texts *)
+Theorem c09_lazy_eager_loops_same_lines_ascii_std : forall prs_float h (ts : list (list N)),
+  Forall (fun t => ~ In 10%N t) ts ->
+  (forall b, In b (with_lf ts) -> (b < 128)%N) ->
+  Forall2 (NV.Vcf.LazyLoopProofs.call_on_line prs_float h)
+          (NV.Vcf.LazyLoop.lazy_call_list_std prs_float h (with_lf ts)) ts /\
+  eager_call_list_std prs_float h (with_lf ts) = map (fun t => read_eager prs_float h (strip_cr t)) ts.
+Proof.
+  intros prs_float h ts Hts Hascii.
+  apply (c09_lazy_eager_loops_same_lines_partial prs_float NV.Fasta.Fastq.utf8_valid h ts Hts).
+  intros s Hs. apply NV.Vcf.FileValsProofs.utf8_valid_of_ascii. intros b Hb. apply Hascii, Hs, Hb.
+Qed.
+Print Assumptions c09_lazy_eager_loops_same_lines_ascii_std.
+
+(* NOT proved: a last line without LF (the lazy reader pads the missing columns with empty fields
+   and returns Ok where the eager reader fails), and texts with byte strings that are not UTF-8,
+   where the statement is FALSE: a lazy call that fails inside a line leaves the reader behind the
+   failed FIELD, the eager one behind the LINE *)
+Definition c09_lazy_loop_lines_full_statement : Prop :=
+  forall prs_float h (text : list N),
+  (forall s, (forall b, In b s -> In b text) -> NV.Fasta.Fastq.utf8_valid s = true) ->
+  let calls := NV.Vcf.LazyLoop.lazy_call_list_std prs_float h text in
+  List.length calls = List.length (lines_of text) /\
+  forall i n f r, nth_error calls i = Some (NV.Vcf.LazyLoop.LCRec n f r) ->
+    exists l, nth_error (lines_of text) i = Some l /\ n = List.length l.
+
+Theorem c09_lazy_loop_resync_witness :
+  NV.Vcf.LazyLoop.rdx_record NV.Fasta.Fastq.utf8_valid [255; 9; 98; 10]%N = NV.Vcf.LazyLoop.XErr [98; 10]%N /\
+  line_bytes [255; 9; 98; 10]%N = [255; 9; 98; 10]%N.
+Proof. exact NV.Vcf.LazyLoopProofs.lazy_loop_resync_witness. Qed.
+Print Assumptions c09_lazy_loop_resync_witness.
